@@ -27,6 +27,9 @@ def run(st, tier, seed):
     for i in range(n):
         size = rng.choice([2, 4, 6, 8, 10, 12]) if tier == "quick" else rng.choice([2, 4, 8, 12, 20, 40, 60])
         bundles.append(("c%d" % i, progen.gen_component_bundle(rng, size=size, satisfiable=rng.random() < 0.7)))
+    exb = compile_check.example_bundles(rng, 15 if tier == "quick" else 200, "comp")
+    res.count("repository-examples", len(exb))
+    bundles += exb
     compile_check.run_bundles(st, res, bundles, "C01", "component")
     res.programs = len(bundles)
     return res
